@@ -54,11 +54,12 @@ Register ==
 
 \* Start, step 3: wait for the configuration - or for the connection going away
 Configured ==
-  /\ st = "waitcfg" /\ beh = "healthy"
+  /\ st = "waitcfg" /\ beh \in {"healthy", "slow-configure"}    \* the runtime configures the plugin, sooner or later
   /\ st' = "started" /\ result' = "ok" /\ est' = est \cup {sess}
   /\ UNCHANGED <<sess, beh, conn, cs, pending, closes, alive>>
 DroppedWhileWaiting ==
-  /\ st = "waitcfg" /\ beh = "drop-after-register"
+  \* the connection goes away (possibly while the plugin's Configure handler runs), or the plugin rejects its configuration
+  /\ st = "waitcfg" /\ beh \in {"drop-after-register", "drop-in-configure", "configure-rejected"}
   /\ ~AsIs                                     \* as-is: Start waits for ever (D8)
   /\ st' = "idle" /\ result' = "error" /\ conn' = "none" /\ alive' = [alive EXCEPT ![sess] = FALSE]
   /\ UNCHANGED <<sess, beh, cs, est, pending, closes>>
@@ -105,6 +106,8 @@ LateNotifyHarmless ==
 \* each session's close notification is delivered at most once, and once for an established session that ended
 OnceNotify == \A s \in 1..MaxSess : closes[s] <= 1
 EventuallyNotified == \A s \in 1..MaxSess : (s \in pending) ~> (closes[s] = 1)
+\* Start succeeds only for a session that got configured (never on the strength of an earlier session's answer)
+OkMeansConfigured == result = "ok" => sess \in est
 \* Start terminates
 StartReturns == (st \in {"starting", "waitcfg"}) ~> (st \in {"idle", "started"})
 
